@@ -11,7 +11,10 @@ MANIFEST = dict(
          "C17_value_bitflip_rejected (stored values), C17_fresh_nonce / C17_replayed_response_rejected / "
          "C17_client_server_separated, C17_replayed_reply_refused_in_fresh_history (premise nonces_fresh: every read "
          "nonce of a client is 32 bytes and not used before in the history; evaluated in Coq on the nonces the harness "
-         "observes on the wire), C17_same_shape_modification_detected, C17_truncation_detected, and "
+         "observes on the wire), C17_init_state_accepted_reply_is_authenticated / "
+         "C17_init_state_empty_reply_is_authenticated (start-up read of vls-util init_state: a reply, also one without "
+         "records, is accepted only with the tag the server made for exactly that list under this read's nonce; compared "
+         "with the real init_state on genuine, replayed and hop-modified replies), C17_same_shape_modification_detected, C17_truncation_detected, and "
          "C17_collisions_are_known (every collision of the MACed bytes is one of three framing classes).  The "
          "property at full strength is false of the code (nothing is length-delimited): C17_refuted_* give the "
          "witnesses, which the harness replays on the real ExternalPersistHelper / compute_shared_hmac / "
@@ -42,6 +45,8 @@ PINNED = ["C17_accepted_value_is_tagged", "C17_value_binding_outside_known", "C1
           "C17_truncation_detected", "C17_fresh_nonce", "C17_replayed_response_rejected",
           "C17_client_server_separated", "C17_reply_for_other_nonce_refused",
           "C17_replayed_reply_refused_in_fresh_history", "C17_stale_reply_accepted_without_fresh_nonce",
+          "C17_init_state_accepts_only_tagged", "C17_init_state_accepted_reply_is_authenticated",
+          "C17_init_state_empty_reply_is_authenticated", "C17_init_state_nonvacuous",
           "C17_refuted_value_key_version_shift", "C17_refuted_set_key_version_shift",
           "C17_refuted_set_merge_split", "C17_refuted_nonce_key_shift", "C17_refuted_put_tag_answers_read",
           "C17_set_binding_refuted", "C17_nonvacuous"]
@@ -116,7 +121,10 @@ def reference_tags(pairs, seed, tier):
 
 
 def strip(c):
-    return {k: v for k, v in c.items() if k != "coq"}
+    d = {k: v for k, v in c.items() if k != "coq"}
+    if isinstance(d.get("ops"), list):
+        d["ops"] = [{k: v for k, v in o.items() if k != "coq"} for o in d["ops"]]
+    return d
 
 
 def run(res):
@@ -139,8 +147,13 @@ def run(res):
     answers = coq_answers([c["coq"] for c in cases], "c17_gen")
     pair_ans = coq_answers([c["coq"] for c in colls], "c17_pair")
     nonce_ans = coq_answers([c["coq"] for c in sessions], "c17_nonces")
+    # the start-up read rule (init_state; new_nonce + get + check_hmac): every delivered reply of the helper paths
+    init_reads = [(c, o) for c in sessions for o in c["ops"] if o["op"] == "read" and o.get("coq")]
+    init_ans = coq_answers([o["coq"] for _, o in init_reads], "c17_init")
     pairs = [(a[0], a[1]) for a in answers if a]
-    tags = iter(reference_tags(pairs, res.seed, res.tier))
+    all_tags = reference_tags(pairs + [(a[0], a[1]) for a in init_ans], res.seed, res.tier)
+    tags = iter(all_tags[:len(pairs)])
+    init_tags = all_tags[len(pairs):]
 
     # ---- correspondence: reference HMAC over the model's bytes vs. what the real functions returned
     bad = []
@@ -196,7 +209,9 @@ def run(res):
     # ---- reads over the wire: the client read paths behind a recording / replaying man in the middle;
     #      the premise of C17_replayed_reply_refused_in_fresh_history (nonces_fresh, evaluated in Coq on the
     #      nonces seen on the wire) and its conclusion, on the implementation
-    NET_INPUT = {"replayed-reply-accepted": "a reply recorded at an earlier read is accepted as the answer to a later read",
+    NET_INPUT = {"tampered-reply-accepted": "a reply modified by the hop between signer and storage is accepted: the accepted "
+                                            "record list is not the one the server authenticated",
+                 "replayed-reply-accepted": "a reply recorded at an earlier read is accepted as the answer to a later read",
                  "reply-under-other-nonce-accepted": "a reply made under another nonce than the one of the request is accepted",
                  "nonce-length": "a read request carries a nonce that is not 32 bytes long",
                  "nonce-reused": "a read request carries a nonce that this client used before",
@@ -230,6 +245,23 @@ def run(res):
             if f["kind"] not in NET_INPUT:
                 machinery.append(("the genuine reply of the storage service was not accepted / the read failed (%s, client path %s)"
                                   % (f["kind"], c["path"]), dict(strip(c), finding=f)))
+    # init_state model vs code on every delivered reply (genuine, replayed, other nonce, tampered)
+    init_bad = []
+    for (c, o), a, t in zip(init_reads, init_ans, init_tags):
+        model_accepts = (a[2] == t)
+        code_accepts = (o["outcome"] == "accepted")
+        if o["outcome"].startswith("error"):
+            continue
+        if model_accepts != code_accepts:
+            init_bad.append((c, o, model_accepts))
+    for c, o, m in init_bad[:2]:
+        if not any(v[2][1].get("session") == c["session"] and v[2][1].get("path") == c["path"] for v in net_violations):
+            w = ("the start-up read (client path %s) %s a reply that Model.Hmac.init_state %s: delivered %s for nonce %s "
+                 "(reply kind %s)" % (c["path"], "accepts" if not m else "refuses", "refuses" if not m else "accepts",
+                                      json.dumps(o["delivered"]), o["wire_nonces"][:1], o["reply"]))
+            net_violations.append((0 if not m else 2, len(net_violations),
+                                   (w, dict({k: v for k, v in strip(c).items() if k != "ops"}, read=strip(o),
+                                            origin="net:init-state-model", **{"class": c["path"] + "/model"}))))
     violations = [v for _, _, v in sorted(net_violations, key=lambda x: x[:2])] + violations
     for w in mon.get("WITNESS", []):
         if not w["collides"]:
@@ -287,8 +319,11 @@ def run(res):
                 "(one client identity each) over PrivClient put/get, vls-frontend lss::Client + "
                 "ExternalPersistHelper::new_nonce/check_hmac, and vls-util init_state (the composition of vlsd's signer), "
                 "against an in-process tonic storage service behind a man in the middle; per session 6-12 operations from "
-                "{put next versions, genuine read, read answered with a reply recorded at an earlier read, read forwarded "
-                "under another nonce}; non-trivial: the session has a genuine and an attacked read; distinct by operation "
+                "{put next versions, genuine read (also of a never-written store), read answered with a reply recorded at "
+                "an earlier read, read forwarded under another nonce}, then one read per reply modification by the hop (drop "
+                "all records with the old tag / no tag / the empty-state tag of another nonce, drop first/last, value bit, "
+                "version, key swap, reorder, duplicate, tag bit, no tag, short tag); every delivered reply of the helper "
+                "paths is also a CInit case for Model.Hmac.init_state; non-trivial: the session has a genuine and an attacked read; distinct by operation "
                 "list incl. the nonces sent (which come from the implementation's OS randomness, not from VERIF_SEED)"
                 % (n_mon, n_net),
         "samples": [strip(cases[0]), strip(cases[1]), strip(cases[3])] + [strip(c) for c in colls[:2]]
@@ -296,6 +331,12 @@ def run(res):
         "net_sessions": len(sessions),
         "net_reads_on_wire": net_reads,
         "net_nonce_histories_fresh_in_coq": sum(1 for a in nonce_ans if a[0][0]),
+        "net_init_state_replies_compared_with_model": len(init_reads),
+        "net_init_state_model_disagreements": len(init_bad),
+        "observation_prefix_not_authenticated": "the reply tag does not cover the key prefix of the request: a hop that "
+            "rewrites the prefix obtains the server's authentic 'no records' reply for the right nonce, and every client "
+            "path accepts it (harness_stats hmac-net *:prefix-swapped:accepted); the reply does authenticate under the "
+            "fresh nonce, so this is outside the wording of C17 and is reported, not judged",
         "traces_validated_against_impl": len(cases),
         "correspondence_disagreements": len(bad),
         "monitor_modifications_tried": tried,
